@@ -228,6 +228,20 @@ fn commit_roundtrip_inner(p: &Prog, orig: &Prog, jets: &JetCodes, out: &mut Out,
     if again != bytes {
         return bad("commit:reencode", format!("{} re-encodes as {}", hex(&bytes), hex(&again)));
     }
+    {
+        #[allow(deprecated)]
+        let v = c.encode_to_vec();
+        let mut a = Vec::<u8>::new();
+        let n = {
+            let mut wa = simplicity::BitWriter::new(&mut a as &mut dyn std::io::Write);
+            #[allow(deprecated)]
+            c.encode(&mut wa).map_err(|e| ("commit:encode-variants".to_string(), e.to_string()))?
+        };
+        let used = ref_decode(&bytes_to_bits(&bytes), jets).map(|(_, u)| u).unwrap_or(usize::MAX);
+        if v != bytes || a != bytes || n != used {
+            return bad("commit:encode-variants", format!("encode_to_vec / encode disagree with to_vec_without_witness (bit count {n}, reference {used})"));
+        }
+    }
     // independent leg
     let none: Vec<Option<Rc<RV>>> = vec![None; p.dag.len()];
     let wire = wire_list(p, &none, false);
@@ -316,6 +330,31 @@ fn redeem_roundtrip(p: &Prog, wit: &[Option<Rc<RV>>], jets: &JetCodes, out: &mut
     }
     if r.to_vec_without_witness() != pb {
         return bad("redeem:encode-variants", "to_vec_without_witness differs from the program part of to_vec_with_witness".into());
+    }
+    // the other entry points of the encoder (deprecated, still public) and the bit counts they return
+    {
+        #[allow(deprecated)]
+        let both = r.encode_to_vec();
+        if both != (pb.clone(), wb.clone()) {
+            return bad("redeem:encode-variants", "encode_to_vec differs from to_vec_with_witness".into());
+        }
+        let (mut a, mut b) = (Vec::<u8>::new(), Vec::<u8>::new());
+        let n = {
+            let mut wa = simplicity::BitWriter::new(&mut a as &mut dyn std::io::Write);
+            let mut wbw = simplicity::BitWriter::new(&mut b as &mut dyn std::io::Write);
+            #[allow(deprecated)]
+            r.encode(&mut wa, &mut wbw).map_err(|e| ("redeem:encode-variants".to_string(), e.to_string()))?
+        };
+        if a != pb || b != wb {
+            return bad("redeem:encode-variants", "encode(prog, witness) writes different bytes than to_vec_with_witness".into());
+        }
+        // bits written = bits the reference codec consumes for the program + compact bits of the emitted witnesses
+        let used = ref_decode(&bytes_to_bits(&pb), jets).map(|(_, u)| u).unwrap_or(usize::MAX);
+        let wire = wire_list(p, wit, true);
+        let wlen: usize = wire.nodes.iter().enumerate().filter(|(_, x)| **x == WNode::Witness).map(|(k, _)| { let i = wire.origin[k].unwrap(); wit[i].clone().unwrap_or_else(|| RV::zero(&p.arrows[i].1)).compact().len() }).sum();
+        if n != used + wlen {
+            return bad("redeem:encode-bit-count", format!("encode returns {n} bits, the program has {used} and the witnesses {wlen}"));
+        }
     }
     // independent leg
     let wire = wire_list(p, wit, true);
@@ -529,45 +568,64 @@ fn leg_typed_witness(ctx: &Ctx, out: &mut Out) {
 /// comp (comp (pair (injl unit) (pair witness K)) (case (drop (take iden)) (drop (drop iden)))) unit.
 /// Returns the DAG, the witness node's index and its type.
 pub fn width_host(bits: usize) -> (Dag, usize, Rc<RT>) {
+    let mut d: Dag = vec![];
+    let (c1, w, ty) = width_inner(&mut d, bits);
+    let u2 = wpush(&mut d, Sym::Unit, 0, 0);
+    wpush(&mut d, Sym::Comp, c1, u2);
+    (d, w, ty)
+}
+
+/// two such witness nodes of the same type side by side: comp (pair inner inner') unit
+pub fn width_host_pair(bits: usize) -> (Dag, [usize; 2], Rc<RT>) {
+    let mut d: Dag = vec![];
+    let (a, w1, ty) = width_inner(&mut d, bits);
+    let (b, w2, _) = width_inner(&mut d, bits);
+    let p = wpush(&mut d, Sym::Pair, a, b);
+    let u = wpush(&mut d, Sym::Unit, 0, 0);
+    wpush(&mut d, Sym::Comp, p, u);
+    (d, [w1, w2], ty)
+}
+
+fn wpush(d: &mut Dag, sym: Sym, l: usize, r: usize) -> usize {
+    d.push(Node { sym, l: l as _, r: r as _ });
+    d.len() - 1
+}
+
+/// comp (pair (injl unit) (pair witness K)) (case (drop (take iden)) (drop (drop iden))) : 1 -> A
+fn width_inner(d: &mut Dag, bits: usize) -> (usize, usize, Rc<RT>) {
     assert!(bits >= 1);
-    fn push(d: &mut Dag, sym: Sym, l: usize, r: usize) -> usize {
-        d.push(Node { sym, l: l as _, r: r as _ });
-        d.len() - 1
-    }
+    let push = wpush;
     let mut words: Vec<u8> = vec![6; bits / 64];
     for k in (0..6).rev() {
         if bits % 64 & (1 << k) != 0 {
             words.push(k as u8);
         }
     }
-    let mut d: Dag = vec![];
-    let u = push(&mut d, Sym::Unit, 0, 0);
-    let sel = push(&mut d, Sym::InjL, u, 0);
-    let w = push(&mut d, Sym::Witness, 0, 0);
+    let u = push(d, Sym::Unit, 0, 0);
+    let sel = push(d, Sym::InjL, u, 0);
+    let w = push(d, Sym::Witness, 0, 0);
     // K = pair w_0 (pair w_1 (...)), emitted in post-order (left child, right child, node)
     fn konst(d: &mut Dag, words: &[u8]) -> (usize, Rc<RT>) {
-        let x = push(d, Sym::Word(words[0], if words.len() % 2 == 0 { 0xfedc_ba98_7654_3210 } else { 0x0123_4567_89ab_cdef }), 0, 0);
+        let x = wpush(d, Sym::Word(words[0], if words.len() % 2 == 0 { 0xfedc_ba98_7654_3210 } else { 0x0123_4567_89ab_cdef }), 0, 0);
         let tx = RT::word(words[0] as usize);
         if words.len() == 1 {
             return (x, tx);
         }
         let (rest, tr) = konst(d, &words[1..]);
-        (push(d, Sym::Pair, x, rest), RT::prod(&tx, &tr))
+        (wpush(d, Sym::Pair, x, rest), RT::prod(&tx, &tr))
     }
-    let (k, ty) = konst(&mut d, &words);
-    let wk = push(&mut d, Sym::Pair, w, k);
-    let input = push(&mut d, Sym::Pair, sel, wk);
-    let i1 = push(&mut d, Sym::Iden, 0, 0);
-    let t1 = push(&mut d, Sym::Take, i1, 0);
-    let left = push(&mut d, Sym::Drop, t1, 0);
-    let i2 = push(&mut d, Sym::Iden, 0, 0);
-    let d2 = push(&mut d, Sym::Drop, i2, 0);
-    let right = push(&mut d, Sym::Drop, d2, 0);
-    let cs = push(&mut d, Sym::Case, left, right);
-    let c1 = push(&mut d, Sym::Comp, input, cs);
-    let u2 = push(&mut d, Sym::Unit, 0, 0);
-    push(&mut d, Sym::Comp, c1, u2);
-    (d, w, ty)
+    let (k, ty) = konst(d, &words);
+    let wk = push(d, Sym::Pair, w, k);
+    let input = push(d, Sym::Pair, sel, wk);
+    let i1 = push(d, Sym::Iden, 0, 0);
+    let t1 = push(d, Sym::Take, i1, 0);
+    let left = push(d, Sym::Drop, t1, 0);
+    let i2 = push(d, Sym::Iden, 0, 0);
+    let d2 = push(d, Sym::Drop, i2, 0);
+    let right = push(d, Sym::Drop, d2, 0);
+    let cs = push(d, Sym::Case, left, right);
+    let c1 = push(d, Sym::Comp, input, cs);
+    (c1, w, ty)
 }
 
 /// witness values of every bit width: the width at which a hand-rolled padding, length prefix or
@@ -614,6 +672,38 @@ fn leg_widths(ctx: &Ctx, out: &mut Out) {
                 Err(e) => out.violation(&panic_class(&e), leg, label(), e),
             }
             ctx.end();
+        }
+        // two witnesses of this width whose values differ in one bit only (first bit / last bit): two
+        // nodes the encoder must keep apart, whatever part of the value its identity hash looks at
+        let (dag2, ws, t2) = width_host_pair(bits);
+        let Some(p2) = Prog::new(&dag2, fam) else {
+            out.violation("widths:host", leg, format!("{bits} bits (pair)"), "the reference cannot type the two-witness host".into());
+            continue;
+        };
+        let mk = |bv: Vec<bool>| RV::from_compact(&t2, &bv, &mut 0).expect("word product from bits");
+        for (name, base) in [("zeros", false), ("ones", true)] {
+            for flip in [0, bits - 1] {
+                let a = mk(vec![base; bits]);
+                let mut bv = vec![base; bits];
+                bv[flip] = !base;
+                let b = mk(bv);
+                let mut wit = vec![None; dag2.len()];
+                wit[ws[0]] = Some(a);
+                wit[ws[1]] = Some(b);
+                let label = || format!("two witnesses of {bits} bits: all {name}, and the same with bit {flip} flipped");
+                if !ctx.begin(leg, &label) {
+                    continue;
+                }
+                out.evaluations += 1;
+                out.states += 1;
+                out.nontrivial += 1;
+                match guard(|| redeem_roundtrip(&p2, &wit, &jets, out)) {
+                    Ok(Ok(())) => out.outcome("widths:ok"),
+                    Ok(Err((c, d))) => out.violation(&c, leg, label(), d),
+                    Err(e) => out.violation(&panic_class(&e), leg, label(), e),
+                }
+                ctx.end();
+            }
         }
     }
 }
